@@ -75,7 +75,7 @@ pub struct World {
     pub tx_index: u32,
     pub contract: String,
     pub prefix: String,
-    pub names: Names,
+    pub names: std::sync::Arc<Names>,
     pub instantiated: bool,
     /// the treasury contract (its address is the principal named "treasury")
     pub tstore: MemStore,
@@ -100,8 +100,37 @@ pub struct TxEnv {
     pub ibc_fail: Vec<usize>,
 }
 
+thread_local! {
+    static LAST_PANIC_AT: std::cell::RefCell<String> = std::cell::RefCell::new(String::new());
+}
+/// panics of the code under test are data: no backtrace on stderr, but the source location is kept
 pub fn silence_panics() {
-    std::panic::set_hook(Box::new(|_| {}));
+    std::panic::set_hook(Box::new(|info| {
+        let at = info
+            .location()
+            .map(|l| {
+                let f = l.file();
+                // keep the path from the crate name on (registry / repo prefixes differ between machines)
+                let short = f.rsplit("/src/").next().unwrap_or(f);
+                let krate = f.rsplit("/src/").nth(1).and_then(|p| p.rsplit('/').next()).unwrap_or("");
+                format!("{krate}/src/{short}")
+            })
+            .unwrap_or_default();
+        LAST_PANIC_AT.with(|c| *c.borrow_mut() = at);
+    }));
+}
+pub fn last_panic_at() -> String {
+    LAST_PANIC_AT.with(|c| c.borrow().clone())
+}
+fn panic_text(e: Box<dyn std::any::Any + Send>) -> String {
+    let msg = if let Some(s) = e.downcast_ref::<String>() {
+        s.clone()
+    } else if let Some(s) = e.downcast_ref::<&str>() {
+        s.to_string()
+    } else {
+        "panic".to_string()
+    };
+    format!("{msg} @ {}", last_panic_at())
 }
 
 fn u128_of(s: &str) -> Result<u128, String> {
@@ -144,7 +173,7 @@ impl World {
             tx_index: 0,
             contract,
             prefix: prefix.to_string(),
-            names,
+            names: std::sync::Arc::new(names),
             instantiated: false,
             tstore: MemStore::default(),
             t_inst: false,
@@ -196,15 +225,7 @@ impl World {
             let deps = DepsMut { storage: store, api: &api, querier: QuerierWrapper::new(&q) };
             f(deps, env)
         }));
-        r.map_err(|e| {
-            if let Some(s) = e.downcast_ref::<String>() {
-                s.clone()
-            } else if let Some(s) = e.downcast_ref::<&str>() {
-                s.to_string()
-            } else {
-                "panic".to_string()
-            }
-        })
+        r.map_err(panic_text)
     }
 
     pub fn query_raw(&self, msg: &Value) -> Result<Result<Value, String>, String> {
@@ -223,7 +244,7 @@ impl World {
                 Err(e) => Err(e.to_string()),
             }
         }));
-        r.map_err(|_| "panic".to_string())
+        r.map_err(panic_text)
     }
 
     pub fn query(&self, msg: Value) -> Value {
@@ -617,7 +638,7 @@ impl World {
                 }
                 self.tf_admin.insert(denom.clone(), sender.clone());
                 self.supply.insert(denom.clone(), 0);
-                self.names.add("LST", &denom);
+                std::sync::Arc::make_mut(&mut self.names).add("LST", &denom);
                 let canon = pb::Enc::new().string(1, &sender).string(2, &sub).done() == bytes;
                 out.msgs.push(json!({"k":"tf_create","url":url,"sender":self.names.nm(&sender),"sub":sub,"denom":denom,"canon":canon}));
                 Ok(None)
@@ -718,15 +739,7 @@ impl World {
             let deps = DepsMut { storage: store, api: &api, querier: QuerierWrapper::new(&q) };
             f(deps, env)
         }));
-        r.map_err(|e| {
-            if let Some(s) = e.downcast_ref::<String>() {
-                s.clone()
-            } else if let Some(s) = e.downcast_ref::<&str>() {
-                s.to_string()
-            } else {
-                "panic".to_string()
-            }
-        })
+        r.map_err(panic_text)
     }
 
     /// kind: "instantiate" | "execute" | "migrate"
@@ -851,7 +864,7 @@ impl World {
     pub fn hook_call(&mut self, channel: &str, from: &str, amt: u128, msg: &Value, limited: bool) -> (String, TxOut) {
         let h = hook_account(channel, from, &self.prefix);
         let hname = format!("hook|{}|{}", channel, self.names.nm(from));
-        self.names.add(&hname, &h);
+        std::sync::Arc::make_mut(&mut self.names).add(&hname, &h);
         if limited {
             let b = self.nat_bal.entry(from.to_string()).or_insert(0);
             if *b < amt {
